@@ -290,6 +290,15 @@ def run(chk):
         'id/name/mass), precision rounding, non-ASCII case folding / digits / whitespace',
     ]
     lap('build')
+    from ..reach_c10 import Reach
+    from peptacular import mass_calc as MC, util as UT
+    from peptacular.chem import chem_calc as CC
+    reach = Reach([MD._get_mass, MD._get_comp, MD.is_unimod_str, MD._strip_unimod_str, MD.parse_unimod_mass, MD.parse_unimod_comp,
+                   MD.is_psi_mod_str, MD._strip_psi_str, MD.parse_psi_mass, MD.parse_psi_comp, MD.is_xlmod_str, MD._strip_xlmod_str,
+                   MD.parse_xlmod_mass, MD.parse_xlmod_comp, MD.is_resid_str, MD._strip_resid_str, MD.is_gno_str, MD._strip_gno_str,
+                   MC.mod_mass, MC._parse_mod_mass, MC._parse_glycan_mass_from_proforma_str, MC._parse_chem_mass_from_proforma_str,
+                   MC._parse_obs_mass_from_proforma_str, CC.mod_comp, CC._parse_mod_comp, CC._parse_glycan_comp, UT.convert_type])
+    reach.start()
     DB = {'unimod': S.UNIMOD_DB, 'psi': S.PSI_MOD_DB, 'xlmod': S.XLMOD_DB, 'mono': S.MONOSACCHARIDES_DB}
     LEANMOD = {'unimod': 'Unimod', 'psi': 'PsiMod', 'xlmod': 'XlMod', 'mono': 'Mono'}
     entries = {k: list(db.id_map.values()) for k, db in DB.items()}
@@ -656,6 +665,14 @@ def run(chk):
             got = bucket(lambda: pt.mod_mass(p + txt))
             if got[0] != 'ok' or abs(got[1] - x) > 1e-9:
                 return f'mod_mass({p + txt!r}) = {got}, expected the shift {x}'
+            # numeric values (not strings) are shifts as well, lists add up, numbers have no composition
+            for v in (x, int(x)):
+                if pt.mod_mass(v) != v:
+                    return f'mod_mass({v!r}) = {pt.mod_mass(v)!r}'
+            if abs(pt.mod_mass([Mod(txt, 1), Mod(int(x), 2)]) - (x + 2 * int(x))) > 1e-9:
+                return f'mod_mass of the list [{txt}, {int(x)}^2] is not the sum'
+            if CC._parse_mod_comp(x) is not None or bucket(lambda: pt.mod_comp(x)) != ('err', 'InvalidCompositionError'):
+                return f'mod_comp({x!r}) should raise InvalidCompositionError'
             return None
         if kind == 'formula':
             _, p, d = c
@@ -736,6 +753,12 @@ def run(chk):
 
     chk.oracle('generic_forms', gcases, o_generic, nontrivial_fn=lambda c: True, key_fn=repr)
     lap('oracle generic')
+    rep = reach.stop()
+    if rep is not None:
+        chk.count('reach_modelled_lines', rep['lines'])
+        chk.count('reach_modelled_lines_executed', rep['executed'])
+        chk.notes.append('reach: lines of the modelled functions not executed by this run: ' +
+                         (json.dumps(rep['uncovered']) if rep['uncovered'] else 'none'))
     if tier == 'thorough':
         chk.leanchecker(PROPS + ['PeptVerif.Lemmas.ModDbLemmas', 'PeptVerif.Lemmas.ModDbSpelling', 'PeptVerif.Lemmas.KSortC10',
                                  'PeptVerif.Lemmas.ModDbGeneric', 'PeptVerif.Model.ModDb', 'PeptVerif.Model.Formula',
